@@ -47,6 +47,10 @@ def main(argv):
     if pid not in MODULES:
         print("no check for", pid)
         return 3
+    if pid == "C11":
+        # C11 runs the library re-compiled from the current source with iteration sites made controllable
+        from symx import ndorder
+        ndorder.install()
     mod = importlib.import_module(MODULES[pid])
     maker = getattr(mod, "make_check_" + pid, None) or mod.make_check
     chk = maker(tier)
